@@ -50,6 +50,31 @@ def c01(ctx, rep):
     _no_cross_state(m, rep, "C01")
 
 
+def _is_copy(t):
+    """list(x) / tuple(x) / x[:] / x.copy(): a fresh sequence with the elements of x, in order."""
+    if M.builtin_call(t, "list", 1) or M.builtin_call(t, "tuple", 1):
+        return t[2][0]
+    if t[0] == "sub" and t[2] == ("slice", None, None, None):
+        return t[1]
+    if t[0] == "call" and t[1][0] == "attr" and t[1][2] == "copy" and not t[2]:
+        return t[1][1]
+    return None
+
+
+def _concat_parts(t):
+    """Element sources of a sequence term, in order: a + b, x.extend(y), copies; [*a, *b] is not used by any known form."""
+    inner = _is_copy(t)
+    if inner is not None:
+        return _concat_parts(inner)
+    if t[0] == "binop" and t[1] == "+":
+        return _concat_parts(t[2]) + _concat_parts(t[3])
+    if t[0] == "mut" and t[2] in ("extend", "__iadd__") and len(t[3]) == 1:
+        return _concat_parts(t[1]) + _concat_parts(t[3][0])
+    if t[0] == "mut":
+        return [("opaque", t)]
+    return [t]
+
+
 def _pin_iterable(m, rep, cl):
     """The pin loop iterates every element of the effective prefix list (and of the preserved networks)."""
     fn = m.f_v4init
@@ -79,6 +104,8 @@ def _pin_iterable(m, rep, cl):
                         early.append(show(x)[:80])
                     if x[0] == "call" and M.callee_name(x) == "join" and x[2] and strip_mut(x[2][0]) == pp:
                         early.append(show(x)[:80])
+        in_iter = {show(x)[:80] for x in subterms(it)}
+        early = [x for x in early if x not in in_iter]  # a copy that the pin loop itself iterates is the one consumption
         rep.ob(cl + ".prefix-list-consumed-once", fn.name, not early, "the given prefix collection is iterated before the pin loop by %s: a one-shot iterable (generator, map) would be exhausted and nothing pinned" % sorted(set(early)), w,
                key=cl + ".prefix-list-consumed-once|" + fn.name, nontrivial=False)
         # which defaulting branch is this path on?
@@ -94,26 +121,27 @@ def _pin_iterable(m, rep, cl):
             if t == pp or (t[0] == "unop" and t[1] == "not" and t[2] == pp):
                 rep.fail(cl + ".prefix-defaulting", fn.name, "preserve_prefixes is tested for truthiness (%s): an explicitly empty list would be replaced by the defaults" % show(t), w,
                          key=cl + ".prefix-defaulting|truthiness")
-        dflt = ("attr", SELF, "DEFAULT_PRESERVED_PREFIXES")
+        parts = _concat_parts(it)
         if pp_none is True:
-            ok = M.builtin_call(root, "list", 1) and root[2][0][0] == "attr" and root[2][0][2] == "DEFAULT_PRESERVED_PREFIXES"
-            ok = ok or (root[0] == "sub" and root[1][0] == "attr" and root[1][2] == "DEFAULT_PRESERVED_PREFIXES" and root[2] == ("slice", None, None, None))
+            ok = len(parts) >= 1 and parts[0][0] == "attr" and parts[0][2] == "DEFAULT_PRESERVED_PREFIXES" and all(x == pa for x in parts[1:])
+            # (whether the default list object is shared does not matter here: a mutation of it is reported by global-state / arguments-left-alone)
             rep.ob(cl + ".prefix-defaulting", fn.name + "[None]", ok,
-                   "with preserve_prefixes=None the pin loop iterates %s; expected a fresh copy list(DEFAULT_PRESERVED_PREFIXES)" % show(it), w,
+                   "with preserve_prefixes=None the pin loop iterates %s; expected the elements of DEFAULT_PRESERVED_PREFIXES (plus the preserved networks)" % show(it), w,
                    key=cl + ".prefix-defaulting|default-copy")
         elif pp_none is False:
-            rep.ob(cl + ".prefix-defaulting", fn.name + "[given]", root == pp,
-                   "with a given list the pin loop iterates %s; expected the caller's list as is" % show(it), w,
+            ok = len(parts) >= 1 and parts[0] == pp and all(x == pa for x in parts[1:])
+            rep.ob(cl + ".prefix-defaulting", fn.name + "[given]", ok,
+                   "with a given list the pin loop iterates %s; expected the caller's prefixes (plus the preserved networks)" % show(it), w,
                    key=cl + ".prefix-defaulting|given")
         else:
             rep.fail(cl + ".prefix-defaulting", fn.name, "no `preserve_prefixes is None` test on path %s" % path.describe(), w)
         # anti-collision: preserved networks are pinned too
         if pa_none is False:
-            ok = it[0] == "mut" and it[2] in ("extend",) and it[3] == (pa,)
-            ok = ok or (it[0] == "binop" and it[1] == "+" and pa in (it[2], it[3]) or (M.builtin_call(it[3] if it[0] == "binop" else it, "list", 1) and False))
-            rep.ob(cl + ".preserved-networks-pinned", fn.name, ok,
+            rep.ob(cl + ".preserved-networks-pinned", fn.name, pa in parts[1:],
                    "with preserve_addresses given the pin loop iterates %s; every preserved network must also be a pinned prefix (anti-collision)" % show(it), w,
                    key=cl + ".preserved-networks-pinned|" + fn.name)
+        elif pa_none is True:
+            rep.ob(cl + ".preserved-networks-pinned", fn.name + "[none]", pa not in parts, "without preserve_addresses the pin loop iterates %s" % show(it), w, nontrivial=False)
         rep.sample({"pin_loop_iterable": show(it), "path": path.describe()})
 
 
@@ -383,6 +411,8 @@ def c02(ctx, rep):
     _private_merge(ctx, m, rep, "C02.private-both-ways", undo_independent_only=True)
     _salt_defaulting(ctx, rep, "C02")
     _gate_content(ctx, m, rep, "C02")
+    m.pin_facts(rep, "C02")  # an exempt (preserved) block that is not pinned lets images land in it, which are then never undone
+    _pin_iterable(m, rep, "C02")
 
 
 def c03(ctx, rep):
@@ -418,6 +448,8 @@ def c03(ctx, rep):
     # salt defaulting must not replace a given salt
     _salt_defaulting(ctx, rep, "C03")
     _pin_iterable(m, rep, "C03")
+    from .checks_misc import argument_mutation_rule
+    argument_mutation_rule(ctx, rep, "C03", [f for f in [c.find_method("__init__") for c in [m.base] + m.p.subclasses(m.base)] if f is not None])
     m.check_split(rep, "C03")
     m.check_split(rep, "C03.undo", inverse=True)
     for f, bad in ((m.f_dean, "direct"), (m.f_inv, "direct"), (m.f_anon, "inverse"), (m.f_fwd, "inverse")):
